@@ -139,7 +139,9 @@ class RelativeValueIteration(ValueIteration):
     def _initialize_solver_state_elements(self) -> None:
         """Initialize solver state elements."""
         super()._initialize_solver_state_elements()
-        self.gain = 0.0
+        # h_{n+1} = T h_n - gain_n needs gain_0 = h_0[-1] for the reported gain to
+        # be the reference state's one-step value difference from the first sweep on
+        self.gain = self.values[-1]
 
     def _iteration_step(self) -> tuple[ValueFunction, float]:
         """Perform one iteration of the solution algorithm.
